@@ -59,6 +59,37 @@ pub fn refframe(stream: &[u8], max_len: usize) -> Vec<Expect> {
     }
 }
 
+/// As `refframe`, with the limit changing from `m1` to `m2` for the frames whose length prefix
+/// is judged after `switch_at` frames have been accepted.
+pub fn refframe2(stream: &[u8], switch_at: usize, m1: usize, m2: usize) -> Vec<Expect> {
+    let mut out = Vec::new();
+    let mut p = 0usize;
+    loop {
+        let max_len = if out.len() < switch_at { m1 } else { m2 };
+        let rem = stream.len() - p;
+        if rem == 0 {
+            out.push(Expect::CleanEnd);
+            return out;
+        }
+        if rem < 4 {
+            out.push(Expect::UnexpectedEof);
+            return out;
+        }
+        let len = u32::from_be_bytes([stream[p], stream[p + 1], stream[p + 2], stream[p + 3]]) as usize;
+        if len > max_len {
+            out.push(Expect::InvalidLen);
+            return out;
+        }
+        p += 4;
+        if stream.len() - p < len {
+            out.push(Expect::UnexpectedEof);
+            return out;
+        }
+        out.push(ref_decode(&stream[p..p + len]));
+        p += len;
+    }
+}
+
 /// Reference decode of a payload as `Vec<u16>` (definite or indefinite array
 /// of unsigned integers <= 65535), through the independent CBOR model.
 pub fn ref_decode(payload: &[u8]) -> Expect {
